@@ -170,9 +170,9 @@ impl CryptoCore {
             extra.write_u8(self.current_key as u8).unwrap();
             extra.write_all(&key.send_nonce.as_bytes()[5..]).unwrap();
         }
-        #[cfg(dswd_vpncloud_verif)]
-        verif::log_seal(key);
         let nonce = aead::Nonce::assume_unique_for_key(*key.send_nonce.as_bytes());
+        #[cfg(dswd_vpncloud_verif)]
+        verif::log_seal(key, nonce.as_ref());
         let tag = key.key.seal_in_place_separate_tag(nonce, aead::Aad::empty(), data).expect("Failed to encrypt");
         tag_space.clone_from_slice(tag.as_ref());
     }
@@ -300,10 +300,11 @@ pub mod verif {
         fp
     }
 
-    pub(super) fn log_seal(key: &CryptoKey) {
+    /// `nonce` is the value handed to the AEAD (not the sender's counter it was derived from).
+    pub(super) fn log_seal(key: &CryptoKey, nonce: &[u8; NONCE_LEN]) {
         SEAL_LOG.with(|l| {
             if let Some(log) = l.borrow_mut().as_mut() {
-                log.push((fingerprint(&key.key), key.send_nonce.0));
+                log.push((fingerprint(&key.key), *nonce));
             }
         })
     }
